@@ -663,7 +663,7 @@ class Daemon(object):
         if not force:
             if hasattr(obj_or_class, "_pyroId") and obj_or_class._pyroId != "":  # check for empty string is needed for Cython
                 pyro_id = obj_or_class._pyroId
-                if pyro_id and self.objectsById.get(pyro_id) is obj_or_class:
+                if pyro_id and self._registered_object(pyro_id) is obj_or_class:
                     raise errors.DaemonError("object or class already has a Pyro id")
             if objectId in self.objectsById:
                 raise errors.DaemonError("an object or class is already registered with that id")
@@ -678,9 +678,36 @@ class Daemon(object):
             else:
                 ser.register_type_replacement(type(obj_or_class), _pyro_obj_to_auto_proxy)
         # register the object/class in the mapping
-        self.objectsById[obj_or_class._pyroId] = obj_or_class if not weak else weakref.ref(obj_or_class)
-        if weak: weakref.finalize(obj_or_class,self.unregister,objectId)
+        if weak:
+            ref = weakref.ref(obj_or_class)
+            self.objectsById[objectId] = ref
+            weakref.finalize(obj_or_class, self._unregister_collected, objectId, ref)
+        else:
+            self.objectsById[objectId] = obj_or_class
         return self.uriFor(objectId)
+
+    def _registered_object(self, objectId):
+        """the object currently registered under the id (weak references unpacked), or None"""
+        obj = self.objectsById.get(objectId)
+        if isinstance(obj, weakref.ref):
+            obj = obj()
+        return obj
+
+    def _is_registered(self, obj):
+        """is this very object (or, for an instance, its class) what is registered under the id it carries?
+        The _pyroId left on an object is not proof: the id may have been unregistered or given to something else since."""
+        objectId = getattr(obj, "_pyroId", None)
+        if not objectId or not isinstance(objectId, str):
+            return False
+        registered = self._registered_object(objectId)
+        if registered is None:
+            return False
+        return registered is obj or (inspect.isclass(registered) and not inspect.isclass(obj) and isinstance(obj, registered))
+
+    def _unregister_collected(self, objectId, ref):
+        """finalizer of a weakly registered object: drop its registration, unless the id has been given to something else since"""
+        if self.objectsById.get(objectId) is ref:
+            del self.objectsById[objectId]
 
     def unregister(self, objectOrId):
         """
@@ -693,6 +720,8 @@ class Daemon(object):
             objectId = getattr(objectOrId, "_pyroId", None)
             if objectId is None:
                 raise errors.DaemonError("object isn't registered")
+            if objectId in self.objectsById and self._registered_object(objectId) is not objectOrId:
+                raise errors.DaemonError("object isn't registered")   # its id has been given to something else since
         else:
             objectId = objectOrId
             objectOrId = None
@@ -717,9 +746,9 @@ class Daemon(object):
         return an URI for the internal address.
         """
         if not isinstance(objectOrId, str):
-            objectOrId = getattr(objectOrId, "_pyroId", None)
-            if objectOrId is None or objectOrId not in self.objectsById:
+            if not self._is_registered(objectOrId):
                 raise errors.DaemonError("object isn't registered in this daemon")
+            objectOrId = objectOrId._pyroId
         if nat:
             loc = self.natLocationStr or self.locationStr
         else:
@@ -873,8 +902,8 @@ serializers.SerializerBase.register_class_to_dict(Daemon, serializers.serialize_
 def _pyro_obj_to_auto_proxy(obj: Any) -> Any:
     """reduce function that automatically replaces Pyro objects by a Proxy"""
     daemon = getattr(obj, "_pyroDaemon", None)
-    if daemon:
-        # only return a proxy if the object is a registered pyro object
+    if daemon and daemon._is_registered(obj):
+        # only return a proxy if the object is a registered pyro object (right now: not unregistered or displaced since)
         return daemon.proxyFor(obj)
     return obj
 
